@@ -31,17 +31,20 @@ CONSTANTS Symbols,     \* symbols a string field is made of
           Escs,        \* set of escape symbols
           Quote,       \* the double quote
           MaxFields, MaxLen,
-          Variant,     \* "repo": merge_escape_parts as it is in the repository
+          Variants,    \* subset of {"repo", "parity"}: which transcriptions are explored
+                       \* "repo": merge_escape_parts as it is in the repository
                        \* "parity": with the closing-quote test of the proposed fix
           Emit         \* TRUE: print every row with the model's results
 
 VARIABLES sep, esc,    \* configuration
+          variant,     \* which transcription of merge_escape_parts (see Variants)
           row,         \* the row (sequence of fields)
           stage,       \* "build" -> "dumped" -> "parsed"
           line,        \* dump output (without the newline)
           result       \* parse_line outcome
 
-vars == <<sep, esc, row, stage, line, result>>
+conf == <<sep, esc, variant>>
+vars == <<conf, row, stage, line, result>>
 
 RECURSIVE TextOfCode(_)
 TextOfCode(n) == IF n = 0 THEN <<>> ELSE Append(TextOfCode(n \div 256), n % 256)
@@ -112,11 +115,11 @@ TrailingEscs(t, e) ==   \* number of e at the end of t
     LET S == {n \in 0..Len(t) : \A j \in (Len(t) - n + 1)..Len(t) : t[j] = e}
     IN CHOOSE n \in S : \A m \in S : m <= n
 
-NotEscapedRaises(t) == Variant = "repo" /\ Len(t) < 2
+NotEscapedRaises(t) == variant = "repo" /\ Len(t) < 2
 
 (* "the final quote of t is not escaped" *)
 NotEscaped(t, e) ==
-    IF Variant = "repo" THEN t[Len(t) - 1] # e                     \* t[-2] != escapechar
+    IF variant = "repo" THEN t[Len(t) - 1] # e                     \* t[-2] != escapechar
     ELSE TrailingEscs(SubSeq(t, 1, Len(t) - 1), e) % 2 = 0         \* proposed fix
 
 RECURSIVE MergeLoop(_, _, _, _, _, _)
@@ -199,7 +202,7 @@ TrailingEscClass(r, p, e) ==
 FieldStart == {[k |-> "s", v |-> <<>>]} \cup {[k |-> "t", v |-> x] : x \in RawTexts}
 
 Init ==
-    /\ sep \in Seps /\ esc \in Escs
+    /\ sep \in Seps /\ esc \in Escs /\ variant \in Variants
     /\ row \in {<<f>> : f \in FieldStart}
     /\ stage = "build" /\ line = <<>> /\ result = Ok(<<>>)
 
@@ -208,25 +211,25 @@ AddSymbol(c) ==
     /\ stage = "build"
     /\ Last(row).k = "s" /\ Len(Last(row).v) < MaxLen
     /\ row' = [row EXCEPT ![Len(row)].v = Append(@, c)]
-    /\ UNCHANGED <<sep, esc, stage, line, result>>
+    /\ UNCHANGED <<conf, stage, line, result>>
 
 AddField(f) ==
     /\ stage = "build"
     /\ Len(row) < MaxFields
     /\ row' = Append(row, f)
-    /\ UNCHANGED <<sep, esc, stage, line, result>>
+    /\ UNCHANGED <<conf, stage, line, result>>
 
 Dump ==
     /\ stage = "build"
     /\ line' = DumpRow(row, sep, Quote, esc)
     /\ stage' = "dumped"
-    /\ UNCHANGED <<sep, esc, row, result>>
+    /\ UNCHANGED <<conf, row, result>>
 
 Parse ==
     /\ stage = "dumped"
     /\ result' = ParseLine(line, Len(row), sep, Quote, esc)
     /\ stage' = "parsed"
-    /\ UNCHANGED <<sep, esc, row, line>>
+    /\ UNCHANGED <<conf, row, line>>
 
 Next == (\E c \in Symbols : AddSymbol(c)) \/ (\E f \in FieldStart : AddField(f)) \/ Dump \/ Parse
 
@@ -235,12 +238,13 @@ Spec == Init /\ [][Next]_vars
 -----------------------------------------------------------------------------
 TypeOK == stage \in {"build", "dumped", "parsed"} /\ Len(row) \in 1..MaxFields
 
-(* C18 on the model *)
-RoundTrip == stage = "parsed" => IsOk(result, Texts(row))
+(* C18 on the model; it holds with the proposed fix ... *)
+RoundTrip == (stage = "parsed" /\ variant = "parity") => IsOk(result, Texts(row))
 
-(* the exact extent of the defect mirrored by Variant = "repo" *)
+(* ... and the transcription of the repository fails it exactly on this class *)
 Characterization ==
-    stage = "parsed" => ((~IsOk(result, Texts(row))) <=> TrailingEscClass(row, sep, esc))
+    (stage = "parsed" /\ variant = "repo") =>
+        ((~IsOk(result, Texts(row))) <=> TrailingEscClass(row, sep, esc))
 
 (* the separator splitting alone is inverted by the join (no field lost) *)
 SplitJoin == stage = "dumped" => Join(SplitSep(line, sep), sep) = line
@@ -248,12 +252,13 @@ SplitJoin == stage = "dumped" => Join(SplitSep(line, sep), sep) = line
 (* collect instead of stop: always TRUE *)
 Collect ==
     (stage = "parsed" /\ ~IsOk(result, Texts(row))) =>
-        PrintT(<<"FAIL", sep, esc, row, line, result,
+        PrintT(<<"FAIL", variant, sep, esc, row, line, result,
                  IF TrailingEscClass(row, sep, esc) THEN "trailing-esc" ELSE "other">>)
 
-(* behaviour generation: every row with what the model computes for it *)
+(* behaviour generation: every row (kept short: one line per row).  The line,
+   the merged parts and the result of the model are recomputed by the trace
+   specification when the recorded execution of the real code is validated *)
 EmitRow ==
-    (Emit /\ stage = "parsed") =>
-        PrintT(<<"ROW", sep, esc, row, line,
-                 MergeParts(SplitSep(line, sep), sep, Quote, esc), result>>)
+    (Emit /\ stage = "parsed" /\ variant = "repo") =>
+        PrintT(<<"ROW", sep, esc, [j \in 1..Len(row) |-> IF row[j].k = "s" THEN 1 ELSE 0], Texts(row)>>)
 =============================================================================
